@@ -60,6 +60,13 @@ func (t *Timer) arm(d time.Duration) {
 		return
 	}
 	c := t.C
+	if d <= 0 && s.ch.Choose("timer.zero", 2) == 0 {
+		// a timer that is due at once may well have fired by the time the
+		// caller looks at its channel (and may not: the other answer)
+		t.tm = &timer{at: s.now, dead: true}
+		s.timerSend(c, vc)
+		return
+	}
 	t.tm = s.addTimer(int64(d), func() { s.timerSend(c, vc) })
 }
 
